@@ -283,3 +283,100 @@ Proof.
       * reflexivity.
       * rewrite Nat.eqb_refl in Hb. discriminate.
 Qed.
+
+(* ---- sends answered without touching the coordinator ---- *)
+Definition sent_join (m : member) : member := set_ph PJoinSent (set_hbin None (set_hb false m)).
+Definition join_imm (code : Z) (g : nat) (m : member) : member :=
+  set_focus (m_id m) (set_inbox (Some (RpJoin code g)) (sent_join m)).
+
+Lemma keep_id_ids : forall c m m', m_live m' = m_live m -> m_id m' = m_id m -> m_ph m <> PJoinSent ->
+  (m_ph m' <> PJoinSent \/ m_focus m' = m_id m) ->
+  (forall x, has_id m' x -> has_id m x) /\ dkc c m m' = 0.
+Proof.
+  intros c m m' A B Hnj Hf. split.
+  - intros x [Hx H]. split; [exact Hx|]. left. destruct H as [H|H]; [congruence|].
+    unfold focus_of in H. destruct Hf as [Hf|Hf]; [destruct (m_ph m'); try congruence; cbn in H; congruence|].
+    destruct (ph_eqb (m_ph m') PJoinSent); congruence.
+  - apply dkc_zero. intros x Hb. unfold bound in *. rewrite A, B. apply andb_true_iff in Hb. destruct Hb as [Hl Hb]. rewrite Hl.
+    cbn [andb]. apply orb_true_iff in Hb. destruct Hb as [Hb|Hb]; [rewrite Hb; reflexivity|].
+    destruct (m_ph m); try congruence; cbn in Hb; discriminate.
+Qed.
+
+Lemma absm_join_imm : forall c m code g, m_ph m = PIdle -> m_inbox m = None ->
+  absm c (join_imm code g m) =
+  a_enter_join (IJ code) (a_idz (absm c m)) (a_id_e (absm c m)) (a_id_p (absm c m)) (a_id_jp (absm c m)) (a_id_sp (absm c m)) true
+               (g =? 0) (g =? c_gen c) (g <=? c_gen c) (absm c m).
+Proof.
+  intros c m code g Hp Hib. unfold absm, a_enter_join, join_imm, sent_join, focus_of, rgen_of, ib_of. pcbn. cbn [ph_eqb].
+  rewrite Nat.eqb_refl. reflexivity.
+Qed.
+
+Lemma sendjoin_pre : forall c m, m_live m = true -> wf_m c m = true -> m_ph m = PIdle -> m_inbox m = None -> m_cmin m = None ->
+  ck_known (m_ck m) = true -> m_rejoin m = true -> fin_of pre_sendjoin (absm c m) = true.
+Proof.
+  intros c m L W Hp Hib Hcm Hck Hrj. unfold fin_of, pre_sendjoin. fold (fin_of pre_wf (absm c m)). rewrite (wf_pre_m _ _ L W).
+  unfold absm, ib_of. pcbn. rewrite Hp, Hib, Hcm, Hck, Hrj. reflexivity.
+Qed.
+
+Lemma case_join_stale : forall c ms i m, inv_facts c ms -> getm i ms = Some m -> m_live m = true ->
+  m_ph m = PIdle -> m_inbox m = None -> m_cmin m = None -> m_rejoin m = true -> m_ck m = CkStale ->
+  let F := join_imm 16 0 in
+  inv_facts c (updm i F ms) /\ mu_behaves true (mkS c ms) (mkS c (updm i F ms)).
+Proof.
+  intros c ms i m Hinv G L Hp Hib Hcm Hrj Hck F. get_facts Hinv G.
+  assert (Hk : ck_known (m_ck m) = true) by (rewrite Hck; reflexivity).
+  pose proof (use_check pre_sendjoin chk_join_stale c m ok_join_stale Hwc L Hwm (sendjoin_pre c m L Hwm Hp Hib Hcm Hk Hrj)) as H.
+  unfold chk_join_stale in H. rewrite Hia in H. assert (Es : ck_stale (a_ck (absm c m)) = true) by (unfold absm; pcbn; rewrite Hck; reflexivity).
+  rewrite Es in H. cbn [negb andb orb] in H.
+  assert (EA : absm c (F m) = a_join_stale (absm c m)).
+  { unfold F. rewrite (absm_join_imm c m 16 0 Hp Hib). unfold a_join_stale.
+    replace (0 =? c_gen c) with (a_G0 (absm c m)) by (unfold absm; pcbn; apply Nat.eqb_sym). reflexivity. }
+  rewrite <- EA in H.
+  destruct (keep_id_ids c m (F m)) as [Hids Hdk]; try reflexivity. { rewrite Hp; discriminate. } { right; reflexivity. }
+  apply (local_same c ms i m F 0 true Hinv G L (fun _ => eq_refl) H Hids). lia.
+Qed.
+
+Lemma case_join_25 : forall c ms i m, inv_facts c ms -> getm i ms = Some m -> m_live m = true ->
+  m_ph m = PIdle -> m_inbox m = None -> m_cmin m = None -> m_rejoin m = true -> ck_known (m_ck m) = true -> ck_stale (m_ck m) = false ->
+  (m_id m =? 0) = false -> memb (m_id m) (ids (c_ents c)) = false -> memb (m_id m) (c_pend c) = false ->
+  let F := join_imm 25 0 in
+  inv_facts c (updm i F ms) /\ mu_behaves true (mkS c ms) (mkS c (updm i F ms)).
+Proof.
+  intros c ms i m Hinv G L Hp Hib Hcm Hrj Hk Hns Hz He Hpe F. get_facts Hinv G.
+  pose proof (use_check pre_sendjoin chk_join_25 c m ok_join_25 Hwc L Hwm (sendjoin_pre c m L Hwm Hp Hib Hcm Hk Hrj)) as H.
+  unfold chk_join_25 in H. rewrite Hia in H.
+  assert (E1 : ck_stale (a_ck (absm c m)) = false) by exact Hns. assert (E2 : a_idz (absm c m) = false) by exact Hz.
+  assert (E3 : a_id_e (absm c m) = false) by exact He. assert (E4 : a_id_p (absm c m) = false) by exact Hpe.
+  rewrite E1, E2, E3, E4 in H. cbn [negb andb orb] in H.
+  assert (EA : absm c (F m) = a_join_25 (absm c m)).
+  { unfold F. rewrite (absm_join_imm c m 25 0 Hp Hib). unfold a_join_25.
+    replace (0 =? c_gen c) with (a_G0 (absm c m)) by (unfold absm; pcbn; apply Nat.eqb_sym). reflexivity. }
+  rewrite <- EA in H.
+  destruct (keep_id_ids c m (F m)) as [Hids Hdk]; try reflexivity. { rewrite Hp; discriminate. } { right; reflexivity. }
+  apply (local_same c ms i m F 0 true Hinv G L (fun _ => eq_refl) H Hids). lia.
+Qed.
+
+(* SyncGroup answered at once *)
+Definition sync_imm (code : Z) (m : member) : member := set_inbox (Some (RpSync code)) (set_ph PSyncSent (set_rejoin false m)).
+Lemma absm_sync_imm : forall c m code, m_ph m = PJoined -> m_inbox m = None ->
+  absm c (sync_imm code m) = a_send_sync (IS code) (a_id_sp (absm c m)) (absm c m).
+Proof.
+  intros c m code Hp Hib. unfold absm, a_send_sync, sync_imm, focus_of, rgen_of, ib_of. pcbn. rewrite Hp, Hib. reflexivity.
+Qed.
+
+Lemma case_sync_imm : forall c ms i m code, inv_facts c ms -> getm i ms = Some m -> m_live m = true ->
+  m_ph m = PJoined -> m_inbox m = None -> ck_known (m_ck m) = true ->
+  sync_reply (absm c m) = Some code ->
+  let F := sync_imm code in
+  inv_facts c (updm i F ms) /\ mu_behaves true (mkS c ms) (mkS c (updm i F ms)).
+Proof.
+  intros c ms i m code Hinv G L Hp Hib Hk Hrep F. get_facts Hinv G.
+  assert (P : fin_of pre_sendsync (absm c m) = true).
+  { unfold fin_of, pre_sendsync. fold (fin_of pre_wf (absm c m)). rewrite (wf_pre_m _ _ L Hwm). unfold absm, ib_of. pcbn.
+    rewrite Hp, Hib, Hk. reflexivity. }
+  pose proof (use_check pre_sendsync chk_sendsync c m ok_sendsync Hwc L Hwm P) as H.
+  unfold chk_sendsync in H. rewrite Hia, Hrep in H. cbn [negb orb] in H.
+  rewrite <- (absm_sync_imm c m code Hp Hib) in H.
+  destruct (keep_id_ids c m (F m)) as [Hids Hdk]; try reflexivity. { rewrite Hp; discriminate. } { left; discriminate. }
+  apply (local_same c ms i m F 0 true Hinv G L (fun _ => eq_refl) H Hids). lia.
+Qed.
